@@ -35,6 +35,7 @@ RULE_DOC = {
     'R11': 'tail expression `E.iter().find(|v| C).map(|w| R)` -> `for i in 0..E.len() { let v = &E[i]; if C { return Some(R) } } None` (std: first element accepted by the predicate; closure bodies verbatim)',
     'R12': 'tail expression `E.iter().any(|v| C)` -> `for i in 0..E.len() { let v = &E[i]; if C { return true } } false`',
     'R13': '`for x in &mut E {` -> `for i in 0..E.len() { let x = &mut E[i];` (std: iter_mut visits the elements in index order)',
+    'R16': '`let m = E.iter().copied().max().unwrap_or(d);` -> `let mut o = None; for i in 0..E.len() { o = opt_max(o, E[i]) }; let m = o.unwrap_or(d);` (std: the maximum, None when empty; opt_max is a verified helper)',
     'R15': '`let v: Vec<T> = E.windows(2).map(|w| F).collect();` -> `let mut v = Vec::new(); for i in 1..E.len() { let w = &E[i - 1..i + 1]; v.push(F); }` (std: the adjacent pairs in order; F verbatim)',
     'R14': '`let n = E.iter().position(|v| C)?;` -> loop remembering the first index accepted by C, then `let n = found?;`',
     'R10': 'a closure passed to Vec::retain gets a parameter type, a named bool result and braces (`|t| E` -> `|t: T| -> (r: bool) { E }`) so that requires/ensures can be attached; the body is verbatim',
@@ -347,6 +348,24 @@ class Piece:
                % (var, m.group(1), ind, m.group(2), ind, fm.group(1), m.group(2), ind, var, fm.group(2).strip(), ind))
         self.text = text[:m.start()] + new + text[end + 1:]
         self._fired('R15', 'windows(2).map(..).collect() -> loop over adjacent pairs')
+        return self
+
+    def R16(self, var, elem_ty):
+        """`let V = E.iter().copied().max().unwrap_or(D);` -> fold keeping the largest element seen (None for an empty E), then `.unwrap_or(D)`"""
+        text = self.text
+        code = scan(text)
+        m = re.search(r'let %s = ([\w\.]+?)(?=\s*\.iter\(\))' % re.escape(var), text)
+        if not m:
+            raise LostAnchor('rule R16 in %s: `let %s = <slice>.iter().copied().max().unwrap_or(..)` not found' % (self.label, var))
+        calls, end = self._chain(text, code, m.end())
+        names = [c[0] for c in calls]
+        if names != ['iter', 'copied', 'max', 'unwrap_or'] or text[end:end + 1] != ';':
+            raise LostAnchor('rule R16 in %s: chain is %s, expected iter/copied/max/unwrap_or' % (self.label, names))
+        ind = re.match(r'[ \t]*', text[_line_start(text, m.start()):]).group(0)
+        new = ('let mut %s__max: Option<%s> = None;\n%sfor i__ in 0..%s.len() {\n%s    %s__max = opt_max_%s(%s__max, %s[i__]);\n%s}\n%slet %s = %s__max.unwrap_or(%s);'
+               % (var, elem_ty, ind, m.group(1), ind, var, elem_ty, var, m.group(1), ind, ind, var, var, calls[3][1].strip()))
+        self.text = text[:m.start()] + new + text[end + 1:]
+        self._fired('R16', 'iter().copied().max().unwrap_or(d) -> fold loop + unwrap_or(d)')
         return self
 
     def R10(self, method, param_ty, annotate):
